@@ -12,7 +12,9 @@ Inputs beyond plain value classes: `degenerate` (every pairing of the ways a sid
 genuinely empty, only infinite points, infinite + diagonal points, ...), per-side containers / dtypes / layouts
 (REPS, _arr), integer grids in the narrowest integer dtype, a few diagrams of 17-41 points, and call histories
 (harness/history.py: `impl_call`, `_histories`): several calls in one interpreter on shared argument objects,
-each judged by the same predicate and the same model run.
+each judged by the same predicate and the same model run.  Every case is called without and with matching=True
+(the flag spelled as keyword, positionally, numpy bool or 1; in histories also in the other order): the distance of
+BOTH calls is held against the spec and the model, under 8 hash seeds (quick) / 14 (thorough).
 
 Also exported for C06 (assembled by the integrator):
   bneck_cert_ok(S, T, dist, rows, tol=0) -> (ok, detail)   the certificate predicate in pure Python
